@@ -19,8 +19,12 @@ import (
 // that is not Succeeded is reconciled; a failed reconcile is retried (as controller-runtime would,
 // error => requeue) up to op.N extra times with the requested back-off on the simulated clock.
 func (r *Run) realBinder(op Op) {
+	var bopts []string
+	if r.S.World.HasDRA() {
+		bopts = []string{"dra"} // the binder's real dynamicresources plugin writes the claim allocation / reservation
+	}
 	if r.Binder == nil {
-		r.Binder = NewBinderActor(r.API, 40*time.Second)
+		r.Binder = NewBinderActor(r.API, 40*time.Second, bopts...)
 		r.Binder.BindFail = r.S.BindFail
 		r.brFailed = map[string]int{}
 		r.brAttempts = map[string]int{}
@@ -72,7 +76,7 @@ func (r *Run) realBinder(op Op) {
 			progressed = true
 			if crashed > 0 {
 				r.Probe("rbinder_crashed")
-				r.Binder = NewBinderActor(r.API, 40*time.Second)
+				r.Binder = NewBinderActor(r.API, 40*time.Second, bopts...)
 				r.Binder.BindFail = r.S.BindFail
 				_ = r.Binder.Sync()
 				continue
